@@ -1436,9 +1436,13 @@ ElemTemplateElement::namespacesPostConstruction(
             const NamespacesHandler&        theParentHandler,
             NamespacesHandler&              theHandler)
 {
+    // xsl:namespace-alias is about the namespaces of literal result
+    // elements (ElemLiteralResult asks for it).  The prefixes in the names
+    // and expressions of an instruction stand for the namespaces they are
+    // declared with in the stylesheet.
     theHandler.postConstruction(
             constructionContext,
-            true,
+            false,
             getElementName(),
             &theParentHandler);
 }
